@@ -749,6 +749,34 @@ def corpus_cases():
                            R(b"a", b"/nope"), R(b"a", b"/./v"), R(b"zz", more=[(b"if-modified-since", b"@T+100")]),
                            R(b"a", more=[(b"if-modified-since", b"@T+100"), RG(b"bytes=0-1")]), R(b"zz"), pipe.clear_page(b"/v"),
                            R(b"zz", method=b"POST")], "corpus-wire", spec=False, comp="vary.wire"))
+    # rule headers named like (pieces of) the fixed part of the vary header: each is advertised and selects variants (seeded C05-4:
+    # a "don't list it twice" filter by substring dropped accept, range, accept-encoding, encoding, ran, e ...)
+    for names in ([b"accept"], [b"range", b"x-a"], [b"accept-encoding", b"encoding"], [b"e", b"ran", b"accept-enc"]):
+        rules = [(n, 0, b"dflt", n) for n in names]
+        pages = [Page(b"/v", rules)]
+        cfg = config(pages)
+        reqs = [pipe.req(b"/v", headers=[(names[0], v)]) for v in (b"b", b"a", b"c")] + [pipe.req(b"/v")]
+        cases.append(mk(cfg, history_ops(reqs, list(reversed(reqs)), pages), "corpus-overlap"))
+    # an internal route: /hi and /hej are answered by a Prime with /./lang; the rules are those of /./lang in the arm that
+    # creates the item (seeded C05-6 took those of /hi there) and in handle_vary_missing; /hi's own rule header does not matter
+    r_int, r_pub = [(b"accept-language", 0, b"en", b"accept-language")], [(b"x-pub", 0, b"p", b"x-pub")]
+    pages = [Page(b"/./lang", r_int, prefix=b"I"), Page(b"/hi", r_pub, prefix=b"P")]
+    routes = [(b"/hi", b"/./lang"), (b"/hej", b"/./lang")]
+    cfg = config(pages, routes=routes)
+
+    def L(v, t=b"/hi", pub=b"m", more=(), method=b"GET"):
+        return pipe.req(t, method=method, headers=[(b"accept-language", v), (b"x-pub", pub)] + list(more))
+    DL = [dump(b"/./lang", 1), dump(b"/hi", 1)]
+    cases.append(mk(cfg, [L(b"sv"), L(b"de"), L(b"sv", pub=b"n"), L(b"de", t=b"/hej"), L(b"fr", t=b"/hej")] + DL +
+                    [L(b"fr"), pipe.clear_page(b"/hi"), L(b"sv"), pipe.clear_page(b"/./lang"), L(b"sv")] + DL, "corpus-internal-route"))
+    cases.append(mk(cfg, [L(b"sv"), park(b"/hi", headers=[(b"accept-language", b"de"), (b"x-pub", b"m")]), pipe.clear_page(b"/./lang"), release()] + DL +
+                    [L(b"de"), L(b"sv")] + DL, "corpus-internal-route", spec=False))
+    # ... and on the wire: the 416 page that replaces a variant of the internal route lists the rule header of /./lang
+    # (x-pub before kvarn 100c33a: wire_416_internal_route_v0_refuted)
+    cfgw = config(pages, routes=routes, report=WIRE_REPORT)
+    cases.append(mk(cfgw, [L(b"de"), L(b"de", more=[(b"range", b"bytes=100-200")]), L(b"de", more=[(b"range", b"bytes=0-1")]),
+                           L(b"sv", t=b"/hej", more=[(b"range", b"bytes=100-200")]), L(b"sv", method=b"HEAD")],
+                    "corpus-internal-route-wire", spec=False, comp="vary.wire"))
     return cases
 
 
@@ -850,6 +878,24 @@ def _dump_ok(i, s):
     return len(set(map(tuple, vec))) == len(vec) and sorted(vec) == sorted(seen) and len(set(map(tuple, seen))) == len(seen)
 
 
+def _canon_vary(x):
+    """a reply with its vary values reduced to what they advertise: a rule header that repeats accept-encoding or range (a
+    rule on one of the two) says nothing the fixed part does not say - listing it again or not is not fixed by the property"""
+    try:
+        if x[0] != "L" or len(x[1]) < 2 or x[1][1][0] != "L":
+            return x
+        hs = []
+        for h in x[1][1][1]:
+            n, v = h[1][0][1], h[1][1][1]
+            if n == b"vary":
+                el = v.split(b", ")
+                v = b", ".join(el[:2] + [e for e in el[2:] if e.lower() not in (b"accept-encoding", b"range")])
+            hs.append(("L", [("B", n), ("B", v)]))
+        return ("L", [x[1][0], ("L", hs)] + list(x[1][2:]))
+    except Exception:
+        return x
+
+
 def spec_ok(c, impl, spec):
     try:
         a, b = xparse(impl), xparse(spec)
@@ -862,7 +908,7 @@ def spec_ok(c, impl, spec):
         if o[1][0][1] == 4:
             if not _dump_ok(x, y):
                 return False
-        elif x != y:
+        elif x != y and _canon_vary(x) != _canon_vary(y):
             return False
     return True
 
@@ -973,6 +1019,31 @@ class _Cfg:
 
     def vary_text(self, path):
         return b"accept-encoding, range" + b"".join(b", " + n for (n, _, _) in self.rules(path))
+
+    def vary_wrong(self, path, lines):
+        """The property fixes what the vary header lists, not its text: exactly one vary line; a comma-separated list that
+        starts with accept-encoding, range; every rule header of the page is an element of it (a rule on accept-encoding or
+        range itself is there already: listing it again, as the code does, or not is the same advertisement); nothing else
+        is.  (The text itself - order, repetition - is compared with the model.)  None = fine, else what is wrong."""
+        want = self.vary_text(path)
+        if lines == [want]:
+            return None
+        if len(lines) != 1:
+            return "%d vary lines" % len(lines)
+        names = [n for (n, _, _) in self.rules(path)]
+        if any(b"," in n for n in names):
+            return "vary %r, expected %r" % (lines[0], want)      # (a rule name with a comma: only the text can be compared)
+        elems = [e.strip(b" \t") for e in lines[0].split(b",")]
+        if [e.lower() for e in elems[:2]] != [b"accept-encoding", b"range"]:
+            return "vary %r does not start with accept-encoding, range" % lines[0]
+        low = [e.lower() for e in elems]
+        for n in names:
+            if n.lower() not in low:
+                return "rule header %r is not an element of vary %r" % (n, lines[0])
+        for e in low[2:]:
+            if e not in [n.lower() for n in names]:
+                return "vary %r lists %r, which is no rule header of the page" % (lines[0], e)
+        return None
 
     def refused(self, path, hdrs):
         """handler kind 6 (harness/src/c05.rs): no server caching when the first component the handler renders is empty or
@@ -1086,10 +1157,10 @@ def _history_oracle(c, out, wire_):
         # -- the vary header
         lines = [h[1][1][1] for h in reported if h[1][0][1] == b"vary"]
         want_vary = cf.vary_text(path)
-        if body != b"" and lines != [want_vary]:
-            return where + "non-empty response (status %d) with vary %r, expected %r" % (status, lines, want_vary)
-        if body == b"" and lines not in ([], [want_vary]):
-            return where + "response (status %d) with vary %r, expected none or %r" % (status, lines, want_vary)
+        if body != b"" or lines:
+            wrong = cf.vary_wrong(path, lines)
+            if wrong:
+                return where + "%sresponse (status %d): %s (expected %r)" % ("non-empty " if body != b"" else "", status, wrong, want_vary)
         ok, rg = _sanitize(path0, hdrs)
         if path not in cf.pages or not ok:
             if len(log) != 0 and not ok:
